@@ -6,6 +6,8 @@ case = {"kind": "hist", "cls": ..., "evs": [event, ...]} with events
   ["exit", pid] ["reap", pid] ["clock", d]
   ["new", pid] ["popen", pid] (psutil.Popen over a stub subprocess.Popen with that pid) ["os_enter", o] ["os_exit", o]
   (o.oneshot() block entered / innermost left) ["asdict", o] (o.as_dict(attrs=["ppid"])) ["isrun", o] ["eq", a, b] ["hasheq", a, b] ["ppid", o] ["ctime", o] ["boot"] ["iter"]
+  ["wait", o] (o.wait(timeout=0); fake processes are not children of the caller) ["iterstart"] (g = process_iter())
+  ["iternext", g] (next(g))
   ["set", o, [method, args...]]   method in signal/suspend/resume/terminate/kill/nice/ionice/rlimit/affinity
 Objects are numbered in order of creation (psutil.Process(pid) and objects first yielded by process_iter()).
 """
@@ -19,6 +21,17 @@ COQ_REQUIRE = "Proc.Run"
 COQ_DIRS = ["Proc"]
 BTIME0 = 1500000000
 KERNEL_EVENTS = ("spawn", "thread", "exit", "reap", "clock")
+IMPORT_PID = 7      # the PID psutil believes it was imported under (os.getpid() is patched during the import only):
+                    # the worker is then like a forked child, and PID 7 -- its "parent" -- is an ordinary, recyclable
+                    # process of the fake kernel
+_real_getpid = []
+
+
+def impl_setup(env):
+    """Runs in the worker before psutil is imported."""
+    if not _real_getpid:
+        _real_getpid.append(os.getpid)
+        os.getpid = lambda: IMPORT_PID
 PID_MAX = 2 ** 31
 PIDS = [0, 1, 2, 3, 7, 2 ** 31 - 1]
 BAD_PIDS = [-1, -7, 5, 2 ** 31, 2 ** 64]
@@ -55,6 +68,7 @@ class Shadow:
         self.last_start = {}
         self.nextinc = 0
         self.objs = []      # [pid, start, gone, reused, inc]
+        self.gens = []      # [started, done, ls, pm]
         self.depth = {}     # object -> depth of open oneshot blocks
         self.cppid = set()  # objects whose ppid() is memoized in the current block
         self.pmap = {}
@@ -149,11 +163,40 @@ class Shadow:
                 pm = {p: i for p, i in self.pmap.items() if p in self.table and p not in self.reused}
                 self.reused = set()
                 for p in a:
-                    if p not in pm and p not in b:
+                    if (p in pm and self.objs[pm[p]][3]) or (p not in pm and p not in b):
+                        pm.pop(p, None)
                         i = self._new(p)
                         if i is not None:
                             pm[p] = i
                 self.pmap = pm
+        elif k == "iterstart":
+            self.gens.append([False, False, [], {}])
+        elif k == "iternext":
+            if e[1] < len(self.gens):
+                g = self.gens[e[1]]
+                if g[1]:
+                    return
+                if not g[0]:
+                    if not self.table:
+                        g[0] = g[1] = True
+                        return
+                    a = sorted(self.table)
+                    b = set(self.pmap)
+                    pm = {p: i for p, i in self.pmap.items() if p in self.table and p not in self.reused}
+                    self.reused = set()
+                    g[0], g[2], g[3] = True, [p for p in a if p in pm or p not in b], pm
+                while g[2]:
+                    p = g[2].pop(0)
+                    pm = g[3]
+                    if p in pm and not self.objs[pm[p]][3]:
+                        return
+                    pm.pop(p, None)
+                    i = self._new(p)
+                    if i is not None:
+                        pm[p] = i
+                        return
+                g[1] = True
+                self.pmap = g[3]
 
 
 def gen_setter(rng):
@@ -317,6 +360,58 @@ def gen_history(rng, n_events, flavour):
         if rng.random() < 0.6:
             emit(rng.choice([["isrun", o], ["set", o, gen_setter(rng)], ["ppid", o]]))
 
+    def wait_motif():
+        # wait() caches the exit code; afterwards the PID is recycled; then guarded calls
+        o = some_obj(lambda i: sh.alive(i))
+        if o is None:
+            return
+        pid = sh.objs[o][0]
+        if rng.random() < 0.3:
+            emit(["wait", o])          # still there: TimeoutExpired
+        if rng.random() < 0.3:
+            emit(["exit", pid])
+        emit(["reap", pid])
+        emit(["wait", o])
+        feats.add("wait")
+        if rng.random() < 0.3:
+            emit(["wait", o])
+        if rng.random() < 0.85 and spawn_some(pid):
+            feats.add("wait-then-reuse")
+        emit(rng.choice([["set", o, gen_setter(rng)], ["isrun", o], ["race", o, gen_setter(rng), []]]))
+        emit(rng.choice([["set", o, gen_setter(rng)], ["isrun", o], ["ppid", o]]))
+
+    def overlap_motif():
+        # a generator suspended before PID p while the object cached for p is found stale by its holder
+        if len(sh.table) < 2:
+            spawn_some()
+            spawn_some()
+        if len(sh.table) < 2:
+            return
+        emit(["iter"])
+        cand = sorted(p for p in sh.pmap if p in sh.table)[1:]
+        if not cand:
+            return
+        p = rng.choice(cand)
+        c = sh.pmap[p]
+        emit(["reap", p])
+        if not spawn_some(p):
+            return
+        emit(["iterstart"])
+        g = len(sh.gens) - 1
+        steps = rng.randint(1, max(1, sorted(sh.table).index(p)))
+        for _ in range(steps):
+            emit(["iternext", g])
+        emit(["isrun", c])
+        feats.add("iter-overlap")
+        for _ in range(rng.randint(1, 4)):
+            emit(["iternext", g])
+            if rng.random() < 0.5:
+                emit(rng.choice([["isrun", c], ["hasheq", c, c], ["eq", c, len(sh.objs) - 1], ["set", c, gen_setter(rng)]]))
+        emit(["isrun", c])
+        emit(["eq", c, len(sh.objs) - 1])
+        if rng.random() < 0.5:
+            emit(["iter"])
+
     def orphan_motif():
         # psutil.Popen whose child is already gone; later the PID gets an owner; compare, probe, signal
         free = sh.free_pids()
@@ -378,14 +473,20 @@ def gen_history(rng, n_events, flavour):
                 emit(["new", pid])
         elif r < 0.40:
             emit(["boot"])
-        elif r < 0.425:
+        elif r < 0.415:
             emit(["iter"])
+        elif r < 0.42:
+            emit(["iterstart"] if not sh.gens or rng.random() < 0.3 else ["iternext", rng.randrange(len(sh.gens))])
+        elif r < 0.425:
+            overlap_motif()
         elif r < 0.435:
             orphan_motif()
         elif r < 0.44:
             same_start_motif()
         elif objs_n == 0:
             continue
+        elif r < 0.455:
+            wait_motif()
         elif r < 0.49:
             oneshot_motif()
         elif r < 0.54:
@@ -459,10 +560,12 @@ def gen_history(rng, n_events, flavour):
         feats.add("oneshot-set-reused")
     if "popen" in feats and ("set-reused" in feats or "set-reused-after-gone" in feats):
         feats.add("popen-set-reused")
-    order = ["race-toctou", "race-window", "race-empty-window", "oneshot-set-reused", "popen-set-reused", "set-reused-after-gone", "set-reused", "pid0", "set-gone", "set-zombie", "eq-same-pid-other-proc", "isrun-reused",
+    if sh.objs and any(x[0] == IMPORT_PID for x in sh.objs) and ("set-reused" in feats or "set-reused-after-gone" in feats):
+        feats.add("import-pid")
+    order = ["wait-then-reuse", "iter-overlap", "race-toctou", "race-window", "race-empty-window", "oneshot-set-reused", "popen-set-reused", "set-reused-after-gone", "set-reused", "pid0", "set-gone", "set-zombie", "eq-same-pid-other-proc", "isrun-reused",
              "clock", "eq-same-proc", "isrun-gone", "iter", "set-alive", "isrun-alive", "eq-other-pid"]
     if flavour == "c02":
-        order = ["popen-gone-child", "eq-other-pid-same-start", "eq-non-process", "eq-adjacent-ticks", "eq-same-pid-other-proc", "isrun-reused", "clock", "eq-same-proc", "isrun-gone", "set-reused", "iter",
+        order = ["iter-overlap", "popen-gone-child", "eq-other-pid-same-start", "eq-non-process", "eq-adjacent-ticks", "eq-same-pid-other-proc", "isrun-reused", "clock", "eq-same-proc", "isrun-gone", "set-reused", "iter",
                  "isrun-alive", "eq-other-pid", "set-gone", "set-alive"]
     cls = next((f for f in order if f in feats), "trivial")
     return {"kind": "hist", "cls": cls, "evs": evs}
@@ -509,6 +612,12 @@ def _ev_term(e):
         return "ER %s %s %s" % (G.nat(e[1]), _setter_term(e[2]), G.lst([_kev_term(x) for x in e[3]]))
     if k == "eqother":
         return "EC (EqOther %s)" % G.nat(e[1])
+    if k == "wait":
+        return "EC (Wait %s)" % G.nat(e[1])
+    if k == "iterstart":
+        return "EC IterStart"
+    if k == "iternext":
+        return "EC (IterNext %s)" % G.nat(e[1])
     if k == "new":
         return "EC (New %s)" % G.z(e[1])
     if k == "popen":
@@ -574,6 +683,9 @@ def judge_history(case, coq, impl, spec_kinds, what):
         return Verdict("corr", "implementation run did not complete: %r" % (impl,))
     for i, e in enumerate(case["evs"]):
         got = impl[i]
+        if isinstance(got[0], dict) and got[0].get("t") == "BindingChanged" and "bind" in spec_kinds:
+            return Verdict("violation", "step %d %r: object %d, still held by the caller, was rebound: pid/identity changed"
+                           % (i, e, got[0]["a"][0]))
         if group_kill(got[1]):
             return Verdict("violation", "step %d %r: os.kill called with pid <= 0: %r" % (i, e, got[1]))
         allowed = coq["spec"][i]
@@ -601,6 +713,8 @@ def _centi(x):
 
 def impl_run(case, coq, env):
     import resource
+    if _real_getpid and os.getpid is not _real_getpid[0]:
+        os.getpid = _real_getpid[0]        # import is over: from now on the real PID (not in the fake table)
 
     import psutil
     from psutil import _psutil_linux as cext
@@ -645,13 +759,37 @@ def impl_run(case, coq, env):
         attempt(T("Rlimit", int(pid), int(res), int(soft), int(hard)), pid)
         return (0, 0)
 
-    saved = [(os, "kill", os.kill), (cext_posix, "setpriority", cext_posix.setpriority),
+    import psutil._psposix as _psposix
+
+    def f_wait_pid(pid, timeout=None, proc_name=None, *a, **kw):
+        # not a child of the caller: wait_pid() polls for existence
+        if pid in table:
+            raise psutil.TimeoutExpired(timeout, pid=pid, name=proc_name)
+        return None
+
+    saved = [(_psposix, "wait_pid", _psposix.wait_pid), (os, "kill", os.kill), (cext_posix, "setpriority", cext_posix.setpriority),
              (cext, "proc_ioprio_set", cext.proc_ioprio_set), (cext, "proc_cpu_affinity_set", cext.proc_cpu_affinity_set),
              (resource, "prlimit", resource.prlimit)]
+    _psposix.wait_pid = f_wait_pid
     os.kill, cext_posix.setpriority = f_kill, f_setprio
     cext.proc_ioprio_set, cext.proc_cpu_affinity_set = f_ioprio, f_affinity
     resource.prlimit = f_prlimit
-    objs, first_hash, blocks = [], {}, {}
+    objs, first_hash, blocks, gens, bound = [], {}, {}, [], {}
+
+    def binding_changed():
+        """every object still held must keep the pid and identity it was created with (C02_binding_stable)"""
+        for i, p in enumerate(objs):
+            now = (type(p).__name__, p.pid, p._ident)
+            if bound.setdefault(i, now) != now:
+                return i
+        return None
+
+    def it_next(g):
+        try:
+            p = next(gens[g])
+        except StopIteration:
+            return T("Stop")
+        return T("Obj", idx_of(p))
 
     def write_proc(pid):
         k = table[pid]
@@ -790,6 +928,11 @@ def impl_run(case, coq, env):
                 r = outcome(psutil.boot_time, lambda x: int(x) if float(x).is_integer() else T("Float", repr(x)))
             elif k == "iter":
                 r = outcome(lambda: list(psutil.process_iter()), lambda l: T("Objs", [idx_of(p) for p in l]))
+            elif k == "iterstart":
+                gens.append(psutil.process_iter())
+                r = Val(T("Gen", len(gens) - 1))
+            elif k == "iternext":
+                r = outcome(lambda: it_next(e[1]), lambda x: x)
             elif any(o >= len(objs) for o in e[1:(3 if k in ("eq", "hasheq") else 2)]):
                 r = T("OutOfModel")
             elif k == "os_enter":
@@ -817,14 +960,25 @@ def impl_run(case, coq, env):
                 flush_pending()
             elif k == "eqother":
                 r = outcome(lambda: eq_other(e[1], e[2]), lambda b: b)
+            elif k == "wait":
+                r = outcome(lambda: objs[e[1]].wait(timeout=0), conv_none)
+
             elif k == "ppid":
                 r = outcome(objs[e[1]].ppid, int)
             elif k == "ctime":
                 r = outcome(objs[e[1]].create_time, _centi)
             else:
                 raise ValueError(k)
+            ch = binding_changed()
+            if ch is not None:
+                r = T("BindingChanged", ch, r)
             out.append([r, log[mark:]])
     finally:
+        for g in gens:
+            try:
+                g.close()
+            except Exception:
+                pass
         for cms in blocks.values():
             while cms:
                 try:
